@@ -123,6 +123,7 @@ type RunStats struct {
 	StatsChecks         int
 	SaveLoads           int
 	ReadBursts          int
+	EarlyExits          int
 	ReadBufferSaturated int
 	SupersededRefresh   int
 	Bursts              int
